@@ -397,6 +397,8 @@ def c10_groups(r: random.Random, n_groups: int):
         ("enum", "untagged", "untagged", None, E_BASE, "C"),
         ("variant", "rename", 'rename = "vx"', 'rename = "vy"', E_BASE, "V"),
         ("variant", "rename_all", 'rename_all = "UPPERCASE"', 'rename_all = "camelCase"', E_BASE, "V"),
+        ("variant", "rename", 'rename = "v\\"q"', 'rename = "v\\\\b"', E_BASE, "V"),
+        ("field", "rename", 'rename = "f\\"q"', 'rename = "f q"', S_NAMED, "F"),
         ("variant", "skip", "skip", None, E_BASE, "V"),
         ("variant", "untagged", "untagged", None, E_BASE, "V"),
         ("field", "rename", 'rename = "fx"', 'rename = "fy"', S_NAMED, "F"),
